@@ -17,6 +17,11 @@ func isJSONArray(d []byte) bool {
 	return len(x) > 0 && x[0] == '['
 }
 
+func isJSONObject(d []byte) bool {
+	x := bytes.TrimLeft(d, " \t\r\n")
+	return len(x) > 0 && x[0] == '{'
+}
+
 func isJSONString(d []byte) bool {
 	x := bytes.TrimLeft(d, " \t\r\n")
 	return len(x) > 0 && x[0] == '"'
